@@ -676,8 +676,11 @@ impl PathIssueManager {
 
         match self.cache.entry(issue_id) {
             hash_map::Entry::Occupied(occupied_entry) => {
-                // Only remove if timestamps match
-                if occupied_entry.get().timestamp == timestamp {
+                // Only remove if timestamps match and this was the issue's last FIFO entry: a
+                // re-report with an equal timestamp leaves a later entry that stands for the
+                // cached issue.
+                let reported_again = self.fifo_issues.iter().any(|(id, _)| *id == issue_id);
+                if occupied_entry.get().timestamp == timestamp && !reported_again {
                     Some(occupied_entry.remove())
                 } else {
                     None
